@@ -128,6 +128,8 @@ class Gen:
         self.size = size
         self.refmode = None               # forced casing mode of references (C17 variants)
         self.kwmode = None
+        self.cr = type(rng)(rng.next() & 0xFFFFFFFF)   # casing decisions have their own stream: the structure
+                                                       # of a workspace does not depend on how it is re-cased
 
     # ---- abstract workspace -------------------------------------------------------------
     def build(self):
@@ -357,15 +359,15 @@ class Gen:
         if not self.recase_kw:
             return s
         if self.kwmode is not None:
-            return recase(self.r, s, self.kwmode)
-        return recase(self.r, s) if self.r.chance(1, 3) else s
+            return recase(self.cr, s, self.kwmode)
+        return recase(self.cr, s) if self.cr.chance(1, 3) else s
 
     def ref(self, s):
         if not self.recase_refs:
             return s
         if self.refmode is not None:
-            return recase(self.r, s, self.refmode)
-        return recase(self.r, s) if self.r.chance(1, 3) else s
+            return recase(self.cr, s, self.refmode)
+        return recase(self.cr, s) if self.cr.chance(1, 3) else s
 
     def render(self):
         self.files = []
@@ -824,3 +826,25 @@ def generate(rng, wid, deviations=(), recase_refs=True, recase_kw=True, size=Non
         if q["kind"] == "d":
             q["expect"] = [d.target() for d in q["expect"]]
     return g
+
+
+MODES = {"as-written": 0, "upper": 1, "lower": 2, "alternating": 3, "random": 4}
+
+
+def generate_variants(rng, wid, modes=("as-written", "upper", "lower", "alternating", "random"), deviations=(), size=None):
+    """the SAME workspace rendered once per casing mode of its keywords and references (declarations
+    as written): [(mode, files, queries)]; positions and expectations are identical in all variants"""
+    g = Gen(rng, wid, deviations, True, True, size).build()
+    snap = rng.s
+    out = []
+    for mode in modes:
+        rng.s = snap
+        g.refmode = g.kwmode = MODES[mode]
+        g.cr = type(rng)(0xC17 + MODES[mode])
+        g.render()
+        g.finish_own_names()
+        for q in g.queries:
+            if q["kind"] == "d":
+                q["expect"] = [d.target() for d in q["expect"]]
+        out.append((mode, list(g.files), list(g.queries)))
+    return out
